@@ -36,3 +36,25 @@ Definition answer_after (key : input -> ckey) (f : input -> N) (h : list input) 
 (* the key of the current code keeps name and node; the seeded variant forgets the node *)
 Definition full_key (x : input) : ckey := x.
 Definition name_only_key (x : input) : ckey := (fst x, 0%N).
+
+(* ------------------------------------------------------------------ *)
+(* Two-way memo (stacked_scopes._memoized_invert): computing inv x = y stores BOTH x -> y and
+   y -> x ("the inverse of the inverse is the constraint we started from"). *)
+Definition ncache := list (N * N).
+Fixpoint ncache_get (c : ncache) (k : N) : option N :=
+  match c with
+  | [] => None
+  | (k', v) :: t => if N.eqb k k' then Some v else ncache_get t k
+  end.
+Definition two_way_call (inv : N -> N) (c : ncache) (x : N) : ncache * N :=
+  match ncache_get c x with
+  | Some v => (c, v)
+  | None => let y := inv x in ((x, y) :: (y, x) :: c, y)
+  end.
+Fixpoint two_way_replay (inv : N -> N) (c : ncache) (h : list N) : ncache :=
+  match h with
+  | [] => c
+  | x :: t => two_way_replay inv (fst (two_way_call inv c x)) t
+  end.
+Definition two_way_answer (inv : N -> N) (h : list N) (x : N) : N :=
+  snd (two_way_call inv (two_way_replay inv [] h) x).
